@@ -33,11 +33,11 @@ def Frame.out (co : Byte) (f : Frame) : List Byte :=
   else []
 
 /-- frame `f` is acceptable when message `co` is open: the length fits the 64-bit field; control
-frames are unfragmented, at most 125 bytes and not Close; a continuation needs an open message;
+frames are Ping or Pong, unfragmented and at most 125 bytes; a continuation needs an open message;
 data is binary, or text whose payload is the base64 encoding of something -/
 def Frame.ok (co : Byte) (f : Frame) : Prop :=
   f.payload.length < 2 ^ 64 ∧
-  (f.isControl = true → f.fin ≠ 0 ∧ f.opcode ≠ opClose ∧ f.payload.length ≤ 125) ∧
+  (f.isControl = true → f.fin ≠ 0 ∧ (f.opcode = opPing ∨ f.opcode = opPong) ∧ f.payload.length ≤ 125) ∧
   (f.isControl = false →
     (f.opcode = opContinuation → co ≠ opInvalid) ∧
     (f.effOp co = opBinary ∨ (f.effOp co = opText ∧ ∃ x, f.payload = ntop x)))
